@@ -67,6 +67,8 @@ RULE = (
     'still starts with "#bundle\\0" or "/" and differs from the valid one. '
     'Distinct by sha1 of the canonical case JSON.'
     ' tcp stage: responders and messages delivered over a NetAddr.connect() TCP connection from a local peer.')
+RULE += ' ' + (
+    'Responder functions have four required parameters, defaulted parameters, *args, or an extra defaulted parameter.')
 ASSUMPTIONS = [
     'The message address is the pattern and the responder path the plain '
     'address (OSC 1.0; OscFunc.matching docstring: "path should not contain '
